@@ -17,6 +17,7 @@ import (
 	"os"
 	"path/filepath"
 	"strconv"
+	"time"
 
 	"verifharness/c07/xcfg"
 	"verifharness/vhlib"
@@ -126,7 +127,10 @@ func class(panicked bool, err error) string {
 func execCase(in input, work string) observed {
 	ob := observed{Own: xcfg.Own(), Impl: xcfg.Impl(in.Enc), DClass: "skip"}
 	data := xcfg.GenData(in.Kind, in.Size, in.DSeed)
-	orig := append([]byte{}, data...)
+	orig := data
+	if len(data) <= 1<<20 { // a private copy detects a Compress that modifies its input (small blocks only: time)
+		orig = append([]byte{}, data...)
+	}
 	e, err := encoder.New(encType(in.Enc))
 	if err != nil {
 		ob.CClass, ob.CErr = "err", err.Error()
@@ -162,7 +166,7 @@ func execCase(in input, work string) observed {
 		ob.CErr = cerr.Error()
 		return ob
 	}
-	em := append([]byte{}, buf.Bytes()...)
+	em := buf.Bytes()
 	ob.N, ob.Emitted = n, len(em)
 	if len(scratch) >= minPrefix && len(em) >= len(scratch) {
 		want := scratchOf(in)
@@ -177,7 +181,10 @@ func execCase(in input, work string) observed {
 	}
 
 	// Decompress what was emitted, from the requested kind of source, followed by `rest` more bytes
-	stream := append(append([]byte{}, em...), bytes.Repeat([]byte{0x77}, in.Rest)...)
+	stream := em
+	if in.Rest > 0 {
+		stream = append(append([]byte{}, em...), bytes.Repeat([]byte{0x77}, in.Rest)...)
+	}
 	inBuf := make([]byte, len(em))
 	out := make([]byte, len(data)+in.OExtra)
 	for i := range out {
@@ -299,6 +306,64 @@ func relPrefix(k int) input {
 
 const nRelPrefix = 40
 
+// size ladder far beyond the usual block sizes: around 128 KiB (zstd block size), 1 MiB, 8 MiB (a common memory
+// limit of decoders), 16 MiB, 64 MiB; and the zstd window sizes 2^10 .. 2^27 (+1: one byte more than a window).
+// Above `big_threshold` of Corr.v the Coq side uses the proved closed form of the model, so these cost Go time only;
+// the patterns are compressible (const / text / counters) to keep that small, a few incompressible ones <= 8 MiB+1.
+var ladder = []int{131071, 131072, 131073, 1<<20 - 1, 1 << 20, 1<<20 + 1, 8<<20 - 1, 8 << 20, 8<<20 + 1, 16<<20 + 1, 64<<20 + 1}
+
+const nLadder = 4 * 3 * 11 // configuration x encoder x size
+const nWindows = 4*17 + 2  // configuration x 2^10+1 .. 2^26+1, and 2^27+1 for cgo and nocgo
+
+func bigKind(size, salt int) string {
+	if salt%5 == 0 && (size <= 1<<20+1 || (size == 8<<20+1 && salt%10 == 0)) { // incompressible: a few, HC levels are slow on them
+		return "random"
+	}
+	if size > 1<<20+1 {
+		return "tile" // cheap to generate; (one huge run of a single byte is very slow in klauspost's decoder)
+	}
+	return []string{"const", "text", "counters"}[salt%3]
+}
+
+func ladderCase(k int, heavy bool) input {
+	ci, ei, si := k/33, (k/11)%3, k%11
+	if si == 10 && !heavy && !(ei == 2 || (ei == 1 && ci < 2) || (ei == 0 && ci == 0)) {
+		si = 9 // quick tier: 64 MiB+1 for zstd everywhere, lz4 under cgo and nocgo, null once; else 16 MiB+1 again
+	}
+	kind := bigKind(ladder[si], ci+ei+si)
+	return input{Cfg: cfgNames[ci], Enc: encNames[ei], Level: 6, Kind: kind, Size: ladder[si],
+		DSeed: uint64(2000 + k), HasDst: true, Src: []string{"file", "bytes", "half"}[k%3],
+		SLen: 8192 * (k % 2), SCap: 8192, OExtra: 64 * (k % 2)}
+}
+
+func b2i(b bool) int {
+	if b {
+		return 1
+	}
+	return 0
+}
+
+func windowCase(k int, heavy bool) input {
+	if k >= 4*17 {
+		if !heavy { // 2^27+1 only in the thorough tier and the search rounds
+			return input{Cfg: []string{"cgo", "nocgo"}[k-4*17], Enc: "zstd", Level: 3, Kind: "text", Size: 1<<22 + 1,
+				DSeed: uint64(3000 + k), HasDst: true, Src: "bytes", SLen: 8192, SCap: 8192}
+		}
+		return input{Cfg: []string{"cgo", "nocgo"}[k-4*17], Enc: "zstd", Level: 3, Kind: "tile", Size: 1<<27 + 1,
+			DSeed: uint64(3000 + k), HasDst: true, Src: "bytes", SLen: 8192, SCap: 8192}
+	}
+	ci, e := k/17, 10+k%17
+	if e > 24 && !heavy && ci >= 2 { // quick tier: 2^25+1 and 2^26+1 only for cgo and nocgo
+		e -= 4
+	}
+	lvl := 1 + (k*7)%19
+	if e > 20 {
+		lvl = 1 + k%6
+	}
+	return input{Cfg: cfgNames[ci], Enc: "zstd", Level: lvl, Kind: []string{"const", "text", "tile", "tile"}[k%2+2*b2i(e > 20)], Size: 1<<e + 1,
+		DSeed: uint64(3000 + k), HasDst: true, Src: []string{"bytes", "file"}[k%2], SLen: 8192, SCap: 8192}
+}
+
 func gen(r *vhlib.Rand, i int, o vhlib.Opts) any {
 	// deterministic prefix: per configuration and encoder the empty block, one byte, and a block written
 	// the way GPFile does it (scratch of length 8192, *os.File source)
@@ -317,6 +382,12 @@ func gen(r *vhlib.Rand, i int, o vhlib.Opts) any {
 	}
 	if i < 36+nRelPrefix {
 		return relPrefix(i - 36)
+	}
+	if i < 36+nRelPrefix+nLadder {
+		return ladderCase(i-36-nRelPrefix, o.Search || o.Tier == "thorough")
+	}
+	if i < 36+nRelPrefix+nLadder+nWindows {
+		return windowCase(i-36-nRelPrefix-nLadder, o.Search || o.Tier == "thorough")
 	}
 	in := input{Cfg: vhlib.Pick(r, cfgNames), HasDst: true, DSeed: r.U64() >> 16}
 	switch x := r.Intn(100); {
@@ -367,8 +438,16 @@ func gen(r *vhlib.Rand, i int, o vhlib.Opts) any {
 			in.Size = r.Intn(4097)
 		}
 	}
+	if r.Chance(10) { // log-uniform in [1, 2^26]
+		in.Size = 1 << uint(r.Intn(26))
+		in.Size += r.Intn(in.Size + 1)
+		if in.Size > 1<<20 { // keep the run time small: compressible contents, moderate levels
+			in.Kind = vhlib.Pick(r, []string{"const", "tile", "tile"})
+			in.Level = 1 + r.Intn(6)
+		}
+	}
 	if r.Chance(25) { // relative to the input; mostly incompressible data, where the frame exceeds len(data)
-		if r.Chance(60) {
+		if r.Chance(60) && in.Size <= 1<<20 {
 			in.Kind = "random"
 		}
 		in.SCap = relCap(in.Enc, in.Size, vhlib.Pick(r, relNames))
@@ -457,14 +536,24 @@ func bucket(n int) string {
 		return "17-4K"
 	case n <= 65536:
 		return "4K-64K"
+	case n <= 400000:
+		return "64K-400K"
+	case n <= 8<<20:
+		return "400K-8M"
 	}
-	return "64K-300K"
+	return ">8M"
 }
 
 func run(raw json.RawMessage, o vhlib.Opts) (*vhlib.Case, error) {
 	var in input
 	if err := json.Unmarshal(raw, &in); err != nil {
 		return nil, err
+	}
+	if os.Getenv("VH_TIMING") != "" { // per-case wall time on stderr (development aid)
+		t0 := time.Now()
+		defer func() {
+			fmt.Fprintf(os.Stderr, "%8.3fs %s\n", time.Since(t0).Seconds(), in.Enc+" "+in.Cfg+" "+strconv.Itoa(in.Size)+" "+in.Kind)
+		}()
 	}
 	if _, ok := coqCfg[in.Cfg]; !ok {
 		return nil, fmt.Errorf("unknown configuration %q", in.Cfg)
